@@ -1,7 +1,7 @@
 """X03 - extension of the specification: `interpolate` (spec/Curve.tla) and `df_roll_off` (spec/Roll.tla).
 
 TLA+ decides; this driver renders the abstract cases, calls pyg_base and encodes what came back."""
-import json, os
+import hashlib, json, os
 from harness.x_pool import pmap
 from harness import x_curve
 from harness.core import Machinery
@@ -10,6 +10,10 @@ from harness.core import Machinery
 # ---------------------------------------------------------------------------------------------------
 # X03-a  interpolate
 # ---------------------------------------------------------------------------------------------------
+def _digest(x):
+    return hashlib.sha1(json.dumps(x, sort_keys=True).encode()).hexdigest()[:16]
+
+
 def _nknots(case):
     x, y = case['x'], case['y']
     if x['k'] == 'v':
@@ -64,7 +68,7 @@ def curve_s2c(ctx, cases, limit=None):
         w = case['want']
         flat = json.dumps(w.get('v'))
         if '"f"' in flat:
-            ctx.note(('curve', json.dumps([case['a'], case['y'], case['x'], case['fill']])))
+            ctx.note(('curve', _digest([case['a'], case['y'], case['x'], case['fill']])))
         if k % 4001 == 0:
             ctx.sample({'curve_s2c_case': case})
 
@@ -236,7 +240,7 @@ def curve_c2s(ctx, n):
                       {'observed': o['out'], 'after': [o['a_after'], o['y_after'], o['x_after']]})
     for o in obs:
         if '"f"' in json.dumps(o['out'].get('v', '')):
-            ctx.note(('curve-c2s', json.dumps([o['a'], o['y'], o['x'], o['fill']])))
+            ctx.note(('curve-c2s', _digest([o['a'], o['y'], o['x'], o['fill']])))
     ctx.sample({'curve_c2s_observation': obs[len(obs) // 2]})
     return obs
 
@@ -319,7 +323,7 @@ def roll_s2c_calls(ctx, cases, via='call'):
         if bad:
             ctx.violation(bad, _roll_case(case['call'], via), {'expected': _roll_want(case['want']), 'observed': out, 'loaded': loaded, 'checked': checked})
         if case['want']['kind'] == 'ok' and len(case['want']['loaded']) >= 2:
-            ctx.note(('roll', _roll_key(case['call'])))
+            ctx.note(('roll', _digest(case['call'])))
         if k % 501 == 0:
             ctx.sample({'roll_s2c_case': {'call': case['call'], 'want': _roll_want(case['want'])}})
 
@@ -363,7 +367,7 @@ def roll_s2c_sessions(ctx, hists):
             ctx.violation(bad, case, {'expected': _roll_want(want), 'observed': out, 'loaded': loaded, 'checked': checked,
                                       'world': hists[k]['w'], 'steps': [{f: s[f] for f in s if f not in ('call', 'want')} for s in hists[k]['hist']]})
         if nload >= 3:
-            ctx.note(('session', json.dumps([hists[k]['w'], hists[k]['n'], [[s.get('d'), s.get('keep'), s.get('t'), s.get('head')] for s in hists[k]['hist']]])))
+            ctx.note(('session', _digest([hists[k]['w'], hists[k]['n'], [[s.get('d'), s.get('keep'), s.get('t'), s.get('head')] for s in hists[k]['hist']]])))
         if k % 101 == 0:
             ctx.sample({'roll_session': {'world': hists[k]['w'], 'n': hists[k]['n'],
                                          'steps': [{f: s[f] for f in s if f not in ('call', 'want')} for s in hists[k]['hist']]}})
@@ -472,7 +476,7 @@ def roll_c2s(ctx, nworlds):
         ctx.violation(clause, _roll_case(o['call'], 'c2s'), {'observed': o['out'], 'loaded': o['loaded'], 'checked': o['checked'], 'after': o['after']})
     for o in obs:
         if o['out']['kind'] == 'ok' and len(o['loaded']) >= 2:
-            ctx.note(('roll-c2s', _roll_key(o['call'])))
+            ctx.note(('roll-c2s', _digest(o['call'])))
     ctx.sample({'roll_c2s_observation': {k: obs[len(obs) // 2][k] for k in ('call', 'out', 'loaded', 'checked')}})
     return obs
 
